@@ -90,6 +90,7 @@ func (s *service) TakeTestRecording() *dbus.Error {
 
 func (s *service) CameraInfo() (map[string]interface{}, *dbus.Error) {
 
+	headerInfo := currentHeaderInfo()
 	if headerInfo == nil {
 		return nil, &dbus.Error{
 			Name: dbusName + ".NoHeaderInfo",
